@@ -435,3 +435,36 @@ def k2_kwargs(op):
         vals = {"ID": ["id1"], "String": ["s"], "Boolean": [True, False], "Int": [1]}[t.name.value]
         outs = [dict(o, **{n: x}) for o in outs for x in vals]
     return outs
+
+
+def fragment_overlap_ops():
+    """A named fragment spread NEXT TO direct selections of response keys the fragment also selects: the same selection, a superset
+    sub-selection, an unconditional selection of a key the fragment selects conditionally - at object, nested and abstract positions.
+    (Every document is valid: overlapping fields can be merged.)"""
+    F = {
+        "OvA": "fragment OvA on User { id friend { id } }",
+        "OvCond": "fragment OvCond on User { id name @include(if: $v) active @skip(if: $v) friend @include(if: $v) { id } }",
+        "OvNode": "fragment OvNode on Node { id }",
+        "OvDeep": "fragment OvDeep on User { friend { friend { id } } }",
+    }
+    specs = [
+        ("OvSame", "user", "...OvA friend { id } id", ("OvA",), False, {"overlap:same_selection"}),
+        ("OvSuperset", "user", "...OvA friend { id name kind }", ("OvA",), False, {"overlap:superset_subselection"}),
+        ("OvSupersetReq", "userReq", "...OvA friend { id active HTTPCode }", ("OvA",), False, {"overlap:superset_subselection"}),
+        ("OvSupersetFirst", "user", "friend { id name kind } ...OvA", ("OvA",), False, {"overlap:superset_subselection", "overlap:direct_first"}),
+        ("OvNested", "user", "friend { ...OvA friend { id name } }", ("OvA",), False, {"overlap:superset_subselection", "overlap:nested"}),
+        ("OvDeeper", "user", "...OvDeep friend { friend { id kind } name }", ("OvDeep",), False, {"overlap:superset_subselection", "overlap:two_levels"}),
+        ("OvUncond", "user", "...OvCond name active", ("OvCond",), True, {"overlap:unconditional_next_to_conditional"}),
+        ("OvUncondComposite", "userReq", "...OvCond friend { id name }", ("OvCond",), True, {"overlap:unconditional_next_to_conditional", "overlap:superset_subselection"}),
+        ("OvAbstract", "node", "...OvNode id ... on User { name }", ("OvNode",), False, {"overlap:same_selection", "overlap:abstract"}),
+        ("OvAbstractInline", "node", "...OvNode ... on User { id name friend { id } ...OvA }", ("OvNode", "OvA"), False, {"overlap:same_selection", "overlap:abstract", "overlap:inside_inline"}),
+        ("OvList", "nodes", "...OvNode ... on User { ...OvA friend { id name } }", ("OvNode", "OvA"), False, {"overlap:superset_subselection", "overlap:abstract"}),
+    ]
+    out = []
+    for name, pos, sel, frags, var, tags in specs:
+        head = f"query {name}($v: Boolean!)" if var else f"query {name}"
+        text = f"{head} {{ {pos} {{ {sel} }} }}"
+        doc = text + "\n" + "\n".join(F[f] for f in frags) + "\n"
+        assert is_valid(schema_k(), doc), doc
+        out.append(Op(name, text, doc, set(tags) | {"family:fragment_overlap", f"pos:{pos}"}, var, set(), pos))
+    return out
